@@ -29,3 +29,10 @@ claim("C03",
       "every ancestor when parent checking is on, and non-preemptible usage <= min; the limit the plugin compared against is the right one (max, or the runtime quota which must itself satisfy C02's predicates at every level); NeverAboveMax as a state invariant.",
       "Trusted: TLC, the package's newPluginTestSuit fixture, in-package reads of PostFilterState and calculator fields. Min-quota scaling switched off; hook plugins none; single default tree.",
       "DESIGN.md 5 C03")
+claim("C04",
+      "TLA+ spec Gang (ground-truth membership/hold state, property predicates ReleaseOK / MustReject / Partition, transcribed Permit and reject rules): TLC exhaustive MC of the design over all interleavings of informer, permit, roll-back, failure and bind steps; real PodGroupManager histories (online random driver playing the framework's waiting-pod table) validated event by event by TLC (trace validation)",
+      "TLC shows on the model that the transcribed Permit / Unreserve / AfterPostFilter rules release a pod of a not-yet-satisfied group only when every gang of the group has its minimum of members holding resources and reject all parked members on a strict-mode failure, "
+      "for all interleavings of 4 pods in 2 gangs under three policy/mode combinations. Every recorded call on the real gang cache is then checked by TLC: Permit verdict vs ReleaseOK on the ground truth, Allow/Reject sets vs the group's parked members, "
+      "and after every event the reported children/pending/waiting/bound sets must partition the members and mean what they say.",
+      "Trusted: TLC, the package's NewManagerForTest fixture, a fake framework handle serving the harness's waiting-pod table. Annotation gangs only; network topology / preemption out of scope; sub-call interleavings only in the model.",
+      "DESIGN.md 5 C04")
